@@ -557,7 +557,11 @@ impl<'a> Runtime<'a> {
                 }
                 Ok(ExecFlow::Continue)
             }
-            Stmt::Block { block, .. } => self.exec_block_with_flow(block),
+            Stmt::Block { block, span } => {
+                // Nested blocks recurse without evaluating an expression: probe here too.
+                self.check_stack(*span)?;
+                self.exec_block_with_flow(block)
+            }
             Stmt::FunctionDef { .. } => Ok(ExecFlow::Continue),
             Stmt::Return { expr, .. } => {
                 let val =
